@@ -3,6 +3,8 @@ from __future__ import annotations
 
 from .mutants import G, GRAM, M, PARS, SUB, TKR, TKZ
 
+ALLP = ["C%02d" % i for i in range(1, 19) if i != 17]
+
 MUTANTS2 = [
     # ------------------------------------------------------------------ C05
     M("c05-env-lookup-attr", "C05",
@@ -159,4 +161,64 @@ MUTANTS2 = [
        (PARS, "# compare_op_bitwise_or_pair: eq_bitwise_or | noteq_bitwise_or |", "# compare_op_bitwise_or_pair: noteq_bitwise_or | eq_bitwise_or |"),
        (PARS, "            self.eq_bitwise_or,\n            self.noteq_bitwise_or,\n", "            self.noteq_bitwise_or,\n            self.eq_bitwise_or,\n")],
       expect="silent", checks=["C02", "C01", "C16", "C18"]),
+    # ------------------------------------------------------------------ realistic behaviour-preserving refactorings (all checks must stay silent)
+    M("benign-is-blank-last-test-returned", "ALL",
+      [(TKR, "        if tok.type == Token.NEWLINE and self._tokens and self._tokens[-1].type == Token.NEWLINE:\n            return True\n        return False\n",
+        "        return bool(tok.type == Token.NEWLINE and self._tokens and self._tokens[-1].type == Token.NEWLINE)\n")], expect="silent", checks=ALLP),
+    M("benign-getnext-plain-one", "ALL",
+      [(TKR, "self._index = Mark(self._index + Mark(1))", "self._index = Mark(self._index + 1)")], expect="silent", checks=ALLP),
+    M("benign-peek-line-number-local", "ALL",
+      [(TKR, "            if not self._path and tok.start[0] not in self._lines:\n                self._lines[tok.start[0]] = tok.line\n",
+        "            lnum = tok.start[0]\n            if not self._path and lnum not in self._lines:\n                self._lines[lnum] = tok.line\n")],
+      expect="silent", checks=ALLP),
+    M("benign-last-token-for-loop", "ALL",
+      [(TKR, "        idx = self._index - 1\n        while idx >= 0:\n            tok = self._tokens[idx]\n            if tok.type not in {Token.ENDMARKER, Token.NEWLINE, Token.DEDENT, Token.INDENT}:\n                return tok\n            idx -= 1\n",
+        "        for idx in range(self._index - 1, -1, -1):\n            tok = self._tokens[idx]\n            if tok.type not in {Token.ENDMARKER, Token.NEWLINE, Token.DEDENT, Token.INDENT}:\n                return tok\n")],
+      expect="silent", checks=ALLP),
+    M("benign-tab-stop-arithmetic", "ALL",
+      [(TKZ, "column = (column // tabsize + 1) * tabsize", "column += tabsize - column % tabsize")], expect="silent", checks=ALLP),
+    M("benign-has-buffer-operands-swapped", "ALL",
+      [(TKZ, "        if (middle_end > state.pos) or (endprog.text):  # has buffer\n", "        if endprog.text or middle_end > state.pos:  # has buffer\n")],
+      expect="silent", checks=ALLP),
+    M("benign-parse-early-return", "ALL",
+      [(SUB, """        if res is None:
+            # Grab the last token that was parsed in the first run to avoid
+            # polluting a generic error reports with progress made by invalid rules.
+            last_token = self._tokenizer.diagnose()
+
+            if not call_invalid_rules:
+                self.call_invalid_rules = True
+
+                # Reset the parser cache to be able to restart parsing from the
+                # beginning.
+                self._reset(0)  # type: ignore
+                self._cache.clear()
+
+                res = getattr(self, rule)()
+
+            self.raise_raw_syntax_error("invalid syntax", last_token.start, last_token.end)
+
+        return res
+""", """        if res is not None:
+            return res
+        last_token = self._tokenizer.diagnose()
+        if not call_invalid_rules:
+            self.call_invalid_rules = True
+            self._reset(0)  # type: ignore
+            self._cache.clear()
+            res = getattr(self, rule)()
+        self.raise_raw_syntax_error("invalid syntax", last_token.start, last_token.end)
+        return res
+""")],
+      expect="silent", checks=ALLP),
+    M("benign-memo-fast-path-operands-swapped", "ALL",
+      [(SUB, "        key = mark, method_name, args\n        # Fast path: cache hit, and not verbose.\n        if key in self._cache and not self._verbose:\n",
+        "        key = mark, method_name, args\n        # Fast path: cache hit, and not verbose.\n        if not self._verbose and key in self._cache:\n")], expect="silent", checks=ALLP),
+    M("benign-check-version-no-else", "ALL",
+      [(SUB, "            return node\n        else:\n            raise SyntaxError(f\"{error_msg} is only supported in Python {min_version} and above.\")",
+        "            return node\n        raise SyntaxError(f\"{error_msg} is only supported in Python {min_version} and above.\")")], expect="silent", checks=ALLP),
+    M("benign-indentation-error-one-tuple", "ALL",
+      [(SUB, "        args = (self.filename, last_token.start[0], last_token.start[1] + 1, last_token.line)\n        args += (last_token.end[0], last_token.end[1] + 1)  # type: ignore\n",
+        "        args = (self.filename, last_token.start[0], last_token.start[1] + 1, last_token.line, last_token.end[0], last_token.end[1] + 1)\n")],
+      expect="silent", checks=ALLP),
 ]
